@@ -1,5 +1,5 @@
 (* C13 proofs: OrderMap over an abstract key equality, then the instance on values. *)
-From Coq Require Import String List NArith ZArith Bool Lia.
+From Coq Require Import String List NArith ZArith Bool Lia Permutation.
 From RV Require Import Base.Text Base.ListX Model.CssStr Model.ValueLite Model.OrderMap Spec.MapSpec Run.C13.
 Import ListNotations.
 Local Open Scope list_scope.
@@ -358,6 +358,88 @@ Section Generic.
     - intros N. destruct (om_literal eqb [] l) eqn:E; [|reflexivity]. exfalso. apply N.
       destruct (literal_ok l [] o E I) as [-> Hn]. exact Hn.
   Qed.
+
+  (* ---- map equality (om_eq) ---- *)
+  Variable veqv : V -> V -> bool.
+
+  Lemma get_some_in (b : omap) (k : K) (v : V) :
+    om_get eqb b k = Some v -> exists k', In (k', v) b /\ eqb k' k = true.
+  Proof.
+    intros H. apply lookup in H as (a & k' & c & -> & E & _). exists k'. split; [|exact E].
+    apply in_or_app. right. now left.
+  Qed.
+
+  Lemma in_get_some (b : omap) (k k' : K) (v : V) :
+    NoDupKeys b -> euclid_on (keys b) k -> In (k', v) b -> eqb k' k = true -> om_get eqb b k = Some v.
+  Proof.
+    unfold NoDupKeys. induction b as [|[k0 v0] r IH]; intros N Eu I E; [destruct I|].
+    cbn in N. destruct N as [N1 N2]. cbn [om_get]. destruct I as [I|I].
+    - inversion I; subst. now rewrite E.
+    - assert (Ik : In k' (keys r)) by (apply in_map_iff; exists (k', v); auto).
+      destruct (eqb k0 k) eqn:E0.
+      + exfalso. assert (X : eqb k0 k' = true) by (apply Eu; cbn; auto).
+        rewrite (N1 k' Ik) in X. discriminate.
+      + apply IH; auto. intros s1 s2 I1 I2. apply Eu; now right.
+  Qed.
+
+  Lemma forallb_ext_in' {A} (f g : A -> bool) (l : list A) :
+    (forall x, In x l -> f x = g x) -> forallb f l = forallb g l.
+  Proof.
+    induction l as [|x r IH]; intros H; [reflexivity|]. cbn. rewrite (H x (or_introl eq_refl)). f_equal.
+    apply IH. intros y Hy. apply H. now right.
+  Qed.
+
+  Lemma om_eq_perm_l (a a' b : omap) : Permutation a a' -> om_eq eqb veqv a b = om_eq eqb veqv a' b.
+  Proof.
+    intros P. unfold om_eq. rewrite (Permutation_length P). f_equal.
+    apply eq_true_iff_eq. rewrite !forallb_forall. split; intros H x Hx; apply H.
+    - eapply Permutation_in; [apply Permutation_sym; exact P|exact Hx].
+    - eapply Permutation_in; [exact P|exact Hx].
+  Qed.
+
+  Lemma get_perm (b b' : omap) (k : K) :
+    Permutation b b' -> NoDupKeys b -> NoDupKeys b' -> euclid_on (keys b) k ->
+    om_get eqb b k = om_get eqb b' k.
+  Proof.
+    intros P N N' Eu.
+    assert (Eu' : euclid_on (keys b') k).
+    { intros s1 s2 I1 I2. apply Eu; (eapply Permutation_in; [apply Permutation_sym, Permutation_map; exact P|]); assumption. }
+    destruct (om_get eqb b k) as [v|] eqn:G.
+    - apply get_some_in in G as (k' & I & E). symmetry. apply (in_get_some b' k k' v); auto.
+      eapply Permutation_in; eauto.
+    - destruct (om_get eqb b' k) as [v|] eqn:G'; [|reflexivity]. exfalso.
+      apply get_some_in in G' as (k' & I & E).
+      assert (X : om_get eqb b k = Some v).
+      { apply (in_get_some b k k' v); auto. eapply Permutation_in; [apply Permutation_sym; exact P|exact I]. }
+      congruence.
+  Qed.
+
+  (* the order of the right map does not matter *)
+  Lemma om_eq_perm_r (a b b' : omap) :
+    Permutation b b' -> NoDupKeys b -> NoDupKeys b' ->
+    (forall k, In k (keys a) -> euclid_on (keys b) k) ->
+    om_eq eqb veqv a b = om_eq eqb veqv a b'.
+  Proof.
+    intros P N N' Eu. unfold om_eq. rewrite (Permutation_length P). f_equal.
+    apply forallb_ext_in'. intros [k v] I. cbn [fst snd].
+    rewrite (get_perm b b' k P N N'); [reflexivity|]. apply Eu. apply in_map_iff. exists (k, v). auto.
+  Qed.
+
+  (* equal exactly when: same size and every entry of a has an == key in b mapped to an == value *)
+  Lemma om_eq_spec (a b : omap) :
+    NoDupKeys b -> (forall k, In k (keys a) -> euclid_on (keys b) k) ->
+    (om_eq eqb veqv a b = true <->
+     length a = length b /\
+     forall k v, In (k, v) a -> exists k' v', In (k', v') b /\ eqb k' k = true /\ veqv v' v = true).
+  Proof.
+    intros N Eu. unfold om_eq. rewrite andb_true_iff, Nat.eqb_eq, forallb_forall. split.
+    - intros [L H]. split; [exact L|]. intros k v I. specialize (H (k, v) I). cbn in H.
+      destruct (om_get eqb b k) as [v'|] eqn:G; [|discriminate].
+      apply get_some_in in G as (k' & I' & E). exists k', v'. auto.
+    - intros [L H]. split; [exact L|]. intros [k v] I. cbn [fst snd].
+      destruct (H k v I) as (k' & v' & I' & E & Ev).
+      rewrite (in_get_some b k k' v'); auto. apply Eu. apply in_map_iff. exists (k, v). auto.
+  Qed.
 End Generic.
 
 (* ---- refinement of the model operations to the reference semantics ---- *)
@@ -461,11 +543,11 @@ Qed.
 
 Lemma set_inner_cons2 m k k2 rest x :
   set_inner m (k :: k2 :: rest) x =
-  match set_inner (match snd (om_remove veq m k) with Some (VMap i) => i | _ => [] end) (k2 :: rest) x with
-  | Some i' => Some (fst (om_insert veq (fst (om_remove veq m k)) k (VMap i')))
+  match set_inner (match om_get veq m k with Some (VMap i) => i | _ => [] end) (k2 :: rest) x with
+  | Some i' => Some (fst (om_insert veq m k (VMap i')))
   | None => None
   end.
-Proof. cbn [set_inner]. destruct (om_remove veq m k). reflexivity. Qed.
+Proof. reflexivity. Qed.
 
 Lemma set_inner_nodup ks : forall m x m', set_inner m ks x = Some m' -> NoDupKeys veq m -> NoDupKeys veq m'.
 Proof.
@@ -474,7 +556,22 @@ Proof.
   - cbn [set_inner]. intros [= <-] H. now apply insert_nodup.
   - rewrite set_inner_cons2.
     destruct (set_inner _ (k2 :: rest) x); [|discriminate].
-    intros [= <-] H. apply insert_nodup. now apply remove_nodup.
+    intros [= <-] H. now apply insert_nodup.
+Qed.
+
+(* map.set with a key path never moves or renames a stored key: the keys are those of the map,
+   plus the first path key at the end when it was absent *)
+Lemma set_path_keys ks : forall m x m', set_inner m ks x = Some m' ->
+  match ks with
+  | [] => False
+  | k :: _ => keys m' = if has veq (keys m) k then keys m else keys m ++ [k]
+  end.
+Proof.
+  destruct ks as [|k [|k2 rest]]; intros m x m'.
+  - discriminate.
+  - cbn [set_inner]. intros [= <-]. apply insert_keys.
+  - rewrite set_inner_cons2. destruct (set_inner _ (k2 :: rest) x); [|discriminate].
+    intros [= <-]. apply insert_keys.
 Qed.
 
 Lemma eval_literal_wf l st : eval_literal l = Some st -> wf_state st.
@@ -539,32 +636,156 @@ Proof.
     rewrite E2 in Y. exact Y.
 Qed.
 
-(* map == (derived Vec equality) implies the order-insensitive reference equality, one direction *)
-Lemma veq_map_cons k v a k' v' b :
-  veq (VMap ((k, v) :: a)) (VMap ((k', v') :: b)) = veq k k' && veq v v' && veq (VMap a) (VMap b).
+(* ---- == on values: eqR is eqL with the operands exchanged; map == is om_eq ---- *)
+Section value_ind2.
+  Variable P : value -> Prop.
+  Hypothesis HN : forall b u s, P (VNum b u s).
+  Hypothesis HS : forall s, P (VStr s).
+  Hypothesis HB : forall b, P (VBool b).
+  Hypothesis HNull : P VNull.
+  Hypothesis HL : forall l s b, Forall P l -> P (VList l s b).
+  Hypothesis HM : forall m, Forall (fun kv => P (fst kv) /\ P (snd kv)) m -> P (VMap m).
+  Hypothesis HA : forall l, Forall P l -> P (VArgs l).
+  Fixpoint value_ind2 (v : value) : P v :=
+    match v with
+    | VNum b u s => HN b u s
+    | VStr s => HS s
+    | VBool b => HB b
+    | VNull => HNull
+    | VList l s b =>
+        HL l s b ((fix go (l : list value) : Forall P l :=
+                     match l with [] => Forall_nil _ | x :: r => Forall_cons x (value_ind2 x) (go r) end) l)
+    | VMap m =>
+        HM m ((fix go (m : list (value * value)) : Forall (fun kv => P (fst kv) /\ P (snd kv)) m :=
+                 match m with
+                 | [] => Forall_nil _
+                 | (k, x) :: r => Forall_cons (k, x) (conj (value_ind2 k) (value_ind2 x)) (go r)
+                 end) m)
+    | VArgs l =>
+        HA l ((fix go (l : list value) : Forall P l :=
+                 match l with [] => Forall_nil _ | x :: r => Forall_cons x (value_ind2 x) (go r) end) l)
+    end.
+End value_ind2.
+
+Fixpoint pairsL (xs ys : list value) : bool :=
+  match xs, ys with
+  | [], [] => true
+  | a :: xs', b :: ys' => eqL a b && pairsL xs' ys'
+  | _, _ => false
+  end.
+Fixpoint pairsR (xs ys : list value) : bool :=
+  match xs, ys with
+  | [], [] => true
+  | a :: xs', b :: ys' => eqR a b && pairsR xs' ys'
+  | _, _ => false
+  end.
+(* looking (k, v) up in ys, written from k's side / from the stored side *)
+Fixpoint getR (ys : list (value * value)) (k v : value) : bool :=
+  match ys with
+  | [] => false
+  | (k', v') :: ys' => if eqR k k' then eqR v v' else getR ys' k v
+  end.
+Fixpoint getL (xs : list (value * value)) (k v : value) : bool :=
+  match xs with
+  | [] => false
+  | (k', v') :: xs' => if eqL k' k then eqL v' v else getL xs' k v
+  end.
+
+Lemma eqL_list xs s1 k1 ys s2 k2 :
+  eqL (VList xs s1 k1) (VList ys s2 k2) = pairsL xs ys && osep_eqb s1 s2 && Bool.eqb k1 k2.
+Proof. reflexivity. Qed.
+Lemma eqR_list xs s1 k1 ys s2 k2 :
+  eqR (VList xs s1 k1) (VList ys s2 k2) = pairsR xs ys && osep_eqb s2 s1 && Bool.eqb k2 k1.
+Proof. reflexivity. Qed.
+Lemma eqL_args xs ys : eqL (VArgs xs) (VArgs ys) = pairsL xs ys.
+Proof. reflexivity. Qed.
+Lemma eqR_args xs ys : eqR (VArgs xs) (VArgs ys) = pairsR xs ys.
 Proof. reflexivity. Qed.
 
-Lemma eq_sound a : forall b, veq (VMap a) (VMap b) = true ->
-  length a = length b /\ sp_sub veq veq a b = true.
+Lemma eqL_map xs ys :
+  eqL (VMap xs) (VMap ys) =
+  Nat.eqb (length xs) (length ys) && forallb (fun kv => getR ys (fst kv) (snd kv)) xs.
 Proof.
-  induction a as [|[k v] r IH]; intros [|[k' v'] b].
-  - intros _. split; reflexivity.
-  - cbn. discriminate.
-  - cbn. discriminate.
-  - rewrite veq_map_cons. intros H. apply andb_true_iff in H as [H H3]. apply andb_true_iff in H as [H1 H2].
-    destruct (IH b H3) as [L S]. split; [cbn; now rewrite L|].
-    unfold sp_sub in *. cbn [forallb existsb fst snd]. unfold same at 1. rewrite H1, H2. cbn.
-    rewrite forallb_forall in *. intros x Hx. specialize (S x Hx). apply existsb_exists in S as (y & Hy & Z).
-    apply orb_true_iff. right. apply existsb_exists. exists y. auto.
+  cbn [eqL]. f_equal. induction xs as [|[k v] r IH]; [reflexivity|]. cbn [forallb fst snd]. rewrite <- IH. f_equal.
+  clear IH. induction ys as [|[k' v'] ys IHy]; [reflexivity|]. cbn [getR]. rewrite <- IHy. reflexivity.
+Qed.
+Lemma eqR_map xs ys :
+  eqR (VMap xs) (VMap ys) =
+  Nat.eqb (length ys) (length xs) && forallb (fun kv => getL xs (fst kv) (snd kv)) ys.
+Proof.
+  cbn [eqR]. f_equal. apply forallb_ext_in'. intros [k v] _. cbn [fst snd].
+  induction xs as [|[k' v'] xs IHx]; [reflexivity|]. cbn [getL]. rewrite <- IHx. reflexivity.
+Qed.
+
+Definition flipQ (x : value) : Prop := forall y, eqR x y = eqL y x /\ eqL x y = eqR y x.
+
+Lemma pairs_flip xs : Forall flipQ xs -> forall ys, pairsR xs ys = pairsL ys xs /\ pairsL xs ys = pairsR ys xs.
+Proof.
+  induction 1 as [|x r Hx Hr IH]; intros [|y ys]; cbn; try (split; reflexivity).
+  destruct (Hx y) as [A B]. destruct (IH ys) as [C D]. rewrite A, B, C, D. split; reflexivity.
+Qed.
+
+Lemma eq_flip : forall x, flipQ x.
+Proof.
+  apply value_ind2; unfold flipQ.
+  - intros b u s [ | | | | | | ]; split; reflexivity.
+  - intros s [ | | | | | | ]; split; reflexivity.
+  - intros b [ | | | | | | ]; split; reflexivity.
+  - intros [ | | | | | | ]; split; reflexivity.
+  - intros l s b F [ | | | |ys s2 k2|ys| ]; try (split; reflexivity).
+    + destruct (pairs_flip l F ys) as [A B]. rewrite !eqL_list, !eqR_list, A, B. split; reflexivity.
+  - intros m F [ | | | |ys s2 k2|ys| ]; try (split; reflexivity).
+    + rewrite !eqL_map, !eqR_map. split.
+      * f_equal. apply forallb_ext_in'. intros [k v] _. cbn [fst snd].
+        induction F as [|[k' v'] r [Hk Hv] Hr IH]; [reflexivity|]. cbn [getL getR]. cbn [fst snd] in Hk, Hv.
+        destruct (Hk k) as [_ A]. destruct (Hv v) as [_ B]. rewrite A, B, IH. reflexivity.
+      * f_equal. induction F as [|[k v] r [Hk Hv] Hr IH]; [reflexivity|]. cbn [forallb fst snd]. cbn [fst snd] in Hk, Hv. rewrite IH. f_equal.
+        clear IH. induction ys as [|[k' v'] ys IHy]; [reflexivity|]. cbn [getL getR].
+        destruct (Hk k') as [A _]. destruct (Hv v') as [B _]. rewrite A, B, IHy. reflexivity.
+  - intros l F [ | | | | | |ys]; try (split; reflexivity).
+    destruct (pairs_flip l F ys) as [A B]. rewrite !eqL_args, !eqR_args, A, B. split; reflexivity.
+Qed.
+
+Lemma eqR_veq x y : eqR x y = veq y x.
+Proof. exact (proj1 (eq_flip x y)). Qed.
+
+Lemma getR_om_get ys k v :
+  getR ys k v = match om_get veq ys k with Some v' => veq v' v | None => false end.
+Proof.
+  induction ys as [|[k' v'] r IH]; [reflexivity|]. cbn [getR om_get]. rewrite !eqR_veq.
+  destruct (veq k' k); [reflexivity|exact IH].
+Qed.
+
+(* css::Value::Map == Map on the model is OrderMap equality with == on keys and values *)
+Lemma veq_map_om_eq a b : veq (VMap a) (VMap b) = om_eq veq veq a b.
+Proof.
+  unfold veq at 1. rewrite eqL_map. unfold om_eq. f_equal. apply forallb_ext_in'. intros [k v] _.
+  cbn [fst snd]. apply getR_om_get.
+Qed.
+
+Lemma equiv_euclid {K} (eqb : K -> K -> bool) U ks k :
+  equiv_on eqb U -> In k U -> (forall s, In s ks -> In s U) -> euclid_on eqb ks k.
+Proof.
+  intros (R & S & T) Hk Hs s1 s2 I1 I2 E1 E2. apply (T s1 k s2); auto. rewrite S; auto.
+Qed.
+
+(* for maps over pool keys: == does not depend on the order of either operand *)
+Lemma pool_eq_order a a' b b' :
+  incl (keys a ++ keys b) key_pool -> Permutation a a' -> Permutation b b' ->
+  NoDupKeys veq b -> NoDupKeys veq b' ->
+  veq (VMap a) (VMap b) = veq (VMap a') (VMap b').
+Proof.
+  intros I Pa Pb N N'. rewrite !veq_map_om_eq.
+  rewrite (om_eq_perm_l veq veq a a' b Pa).
+  apply om_eq_perm_r; auto. intros k Hk.
+  apply (equiv_euclid veq key_pool); [exact pool_equiv| |].
+  - apply I. apply in_or_app. left.
+    eapply Permutation_in; [apply Permutation_sym, Permutation_map; exact Pa|exact Hk].
+  - intros s Hs. apply I. apply in_or_app. now right.
 Qed.
 
 Definition w_a : vmap := [(kp 13, vp 0); (kp 16, vp 1)].
-Definition w_b : vmap := [(kp 16, vp 1); (kp 13, vp 0)].
-Lemma refuted_eq_order : sp_eq veq veq w_a w_b = true /\ veq (VMap w_a) (VMap w_b) = false.
+Definition w_b : vmap := [(kp 17, vp 1); (kp 14, vp 0)].
+(* (a: 1, b: 2) == ("b": 2, "a": 1) *)
+Lemma eq_order_example : veq (VMap w_a) (VMap w_b) = true /\ veq (VMap w_b) (VMap w_a) = true.
 Proof. split; vm_compute; reflexivity. Qed.
-
-Definition w_m : vmap := [(kp 13, vp 7); (kp 16, vp 1)].
-Lemma refuted_set_path_order :
-  exists m', set_inner w_m [kp 13; kp 16] (vp 2) = Some m' /\
-             bytes_eqb (inspect (VMap m')) (inspect (VMap (sp_set_path w_m [kp 13; kp 16] (vp 2)))) = false.
-Proof. eexists. split; [vm_compute; reflexivity|vm_compute; reflexivity]. Qed.
